@@ -36,7 +36,7 @@ def mkcfg(kind, parent, req, **kw):
         "sdur": arr("sdur", 0), "cdur": arr("cdur", 0), "scdur": arr("scdur", 0),
         "horizon": kw.get("horizon", 0), "ucancel": kw.get("ucancel", -1),
         "cwait": arr("cwait", 0), "preshut": bool(kw.get("preshut", False)),
-        "xshut": bool(kw.get("xshut", False)),
+        "xshut": bool(kw.get("xshut", False)), "cout": arr("cout", "cancelled"),
     }
 
 
